@@ -1,6 +1,7 @@
 import Oas3Model.Driver.Util
 import Oas3Model.Driver.Path
 import Oas3Model.Model.Client
+import Oas3Model.Model.ClientWire
 open Lean Oas3.Driver Oas3.Path Oas3.Client
 
 namespace Oas3.Driver.Client
@@ -16,8 +17,89 @@ def paramsOf (j : Json) : Except String (List Param) := do
     let lvl := (fieldD p "level" (Json.str "op")).getStr?.toOption.getD "op"
     pure { name, loc, pathLevel := lvl == "path" }
 
+private def gs (j : Json) (k : String) : String := (fieldD j k (Json.str "")).getStr?.toOption.getD ""
+private def ga (j : Json) (k : String) : List Json := match fieldD j k Json.null with | .arr a => a.toList | _ => []
+private def gb (j : Json) (k : String) : Bool := (fieldD j k (Json.bool false)).getBool?.toOption.getD false
+private def go (j : Json) (k : String) : Json := fieldD j k Json.null
+
+def itemOf : String → Item
+  | "integer" => .integer | "number" => .number | "boolean" => .boolean | "enum" => .enum | _ => .string
+
+def styleOf : String → Style
+  | "form" => .form | "spaceDelimited" => .spaceDelimited | "pipeDelimited" => .pipeDelimited | _ => .other
+
+/-- parameters with their wire-relevant attributes: `type` string | integer | number | boolean | enum | array
+(`items` string | integer | enum, default string) | intarray; `required`, `style`, `explode`, `default` (any value) -/
+def wparamsOf (j : Json) : Except String (List WParam) := do
+  let a ← arr j
+  a.mapM fun p => do
+    let name ← chars (← field p "name")
+    let loc := locOf (let s := gs p "in"; if s == "" then "query" else s)
+    let ty := gs p "type"
+    let isArray := ty == "array" || ty == "intarray"
+    let item := if ty == "intarray" then Item.integer else if ty == "array" then itemOf (gs p "items") else itemOf ty
+    let style := match go p "style" with | .str s => some (styleOf s) | _ => none
+    let explode := match go p "explode" with | .bool b => some b | _ => none
+    pure { name, loc, pathLevel := gs p "level" == "path", isArray, item, required := gb p "required" || loc == .path,
+           style, explode, hasDefault := go p "default" != Json.null }
+
+def formText : HForm → String
+  | .str => "str" | .toString => "to_string" | .joinComma => "join:," | .other t => "other:" ++ String.ofList t
+
+def qmemberJson (m : QMember) : Json :=
+  Json.mkObj [("field", str m.field), ("key", str m.key), ("array", Json.bool m.isArray), ("optional", Json.bool m.optional),
+    ("serde_as", match m.adapter with | some s => str (adapterText s m.optional) | none => Json.null)]
+
+def hinsertJson (h : HInsert) : Json :=
+  Json.mkObj [("field", str h.field), ("const", str h.const), ("wire", str h.wire), ("form", Json.str (formText h.form)),
+    ("conditional", Json.bool h.conditional), ("optional", Json.bool h.optional)]
+
+/-- model side: the insertion plus whether the member's (item) type is `String` -/
+def hinsertM (p : WParam) : Json := (hinsertJson (headerInsert p)).setObjVal! "string_member" (Json.bool (p.item == .string))
+
+/-- extracted member of the `…Query` struct, in the model's vocabulary -/
+def qmemberX (f : Json) : Json :=
+  Json.mkObj [("field", go f "field"), ("key", go f "key"), ("array", go f "array"), ("optional", go f "optional"), ("serde_as", go f "serde_as")]
+
+def formX (e : Json) : String :=
+  match gs e "form" with
+  | "str" => "str" | "to_string" => "to_string"
+  | "join" => "join:" ++ gs e "sep"
+  | "other" => "other:" ++ gs e "text"
+  | x => "other:" ++ x
+
+/-- extracted header insertion: the constant's VALUE is looked up among the emitted constants, the member's
+Option-ness in the `…Header` struct -/
+def hinsertX (consts : Json) (fields : List Json) (e : Json) : Json :=
+  let fld := gs e "field"
+  let mem := fields.find? fun f => gs f "field" == fld
+  Json.mkObj [("field", go e "field"), ("const", go e "const"), ("wire", fieldD consts (gs e "const") Json.null), ("form", Json.str (formX e)),
+    ("conditional", go e "optional"), ("optional", match mem with | some f => go f "optional" | none => Json.null),
+    ("string_member", Json.bool (match mem with | some f => gs f "inner" == "String" | none => false))]
+
+/-- (query layout, header layout) of ONE extracted method; a query that is not `.query(&request.query)` on a
+struct is reported as text -/
+def wireX (consts : Json) (w : Json) : Json × Json :=
+  let q := go w "query"
+  let ql := match gs q "mode" with
+    | "struct" => Json.arr ((ga q "fields").map qmemberX).toArray
+    | "none" | "" => Json.arr #[]
+    | _ => Json.str "other"
+  let h := go w "headers"
+  let hl := if gb h "used" then
+      match go h "encode" with
+      | .arr es => Json.arr (es.toList.map (hinsertX consts (ga h "fields"))).toArray
+      | _ => Json.str "other"
+    else Json.arr #[]
+  (ql, hl)
+
 /-- projection of the emitted method that the model predicts -/
-def project (m : Json) : Json :=
+def project (consts : Json) (clashQ clashH : Bool) (mw : Json × Json) : Json :=
+  let m := mw.1
+  let (ql, hl) := wireX consts mw.2
+  -- two parameters of one location that share a Rust field (F03-5): members / constants cannot be told apart
+  let ql := if clashQ then Json.str "field-clash" else ql
+  let hl := if clashH then Json.str "field-clash" else hl
   let body := match (fieldD m "body" (Json.arr #[])) with
     | .arr a => if a.isEmpty then Json.null else (fieldD a[0]! "enc" Json.null)
     | _ => Json.null
@@ -30,7 +112,100 @@ def project (m : Json) : Json :=
   let qs := match fieldD m "query" (Json.arr #[]) with | .arr a => a.toList | _ => []
   Json.mkObj [("http", fieldD m "http" Json.null), ("pushes", fieldD m "pushes" (Json.arr #[])),
     ("query", Json.bool (qs.contains (Json.str "&request.query"))), ("headers", fieldD m "headers" (Json.bool false)), ("body", body),
-    ("validates_first", fieldD m "validates_first" (Json.bool false))]
+    ("validates_first", fieldD m "validates_first" (Json.bool false)), ("query_layout", ql), ("header_layout", hl)]
+
+def uniqS (l : List String) : List String := l.foldl (fun acc s => if acc.contains s then acc else acc ++ [s]) []
+
+def sepOfAdapter (t : String) : Option (Sep × Bool) :=
+  [Sep.comma, Sep.space, Sep.pipe].findSome? fun s =>
+    if t.toList == adapterText s false then some (s, false) else if t.toList == adapterText s true then some (s, true) else none
+
+/-- query clause of the property on the extracted members: (unlisted failures, known classes with their text) -/
+def judgeQuery (qps : List WParam) (ql : Json) (raw : List Json) : List String × List (String × String) := Id.run do
+  -- `ql`: the projection compared with the model; `raw`: the same members with their Rust types
+  let mems := if (match ql with | .arr a => a.size | _ => 0) == raw.length then raw else []
+  if ql == Json.str "other" then return (["the query is not built from the request's query struct"], [])
+  if mems.length != qps.length then return ([s!"the query struct has {mems.length} members for {qps.length} query parameters"], [])
+  let mut bad : List String := []
+  let mut known : List (String × String) := []
+  for (p, f) in qps.zip mems do
+    let nm := String.ofList p.name
+    let key := gs f "key"
+    let fld := gs f "field"
+    -- `core`: failures of the clause `queryOk`; `extra`: failures outside it (adapter wrapping, item types)
+    let mut core : List String := []
+    let mut extra : List String := []
+    let mut cls : List (String × String) := []
+    if key != nm then core := core ++ [s!"query parameter `{nm}` goes out under the name `{key}` (member {fld})"]
+    if gb f "array" != p.isArray then core := core ++ [s!"query parameter `{nm}`: member {fld} is {if gb f "array" then "" else "not "}an array"]
+    if gb f "optional" == p.required then core := core ++ [s!"query parameter `{nm}` (required = {p.required}): member {fld} has type {gs f "ty"}"]
+    let sa := match go f "serde_as" with | .str t => some t | _ => none
+    let adapter : Option Sep := match sa with | some t => (sepOfAdapter t).map (·.1) | none => none
+    match sa with
+    | some t =>
+      match sepOfAdapter t with
+      | none => extra := extra ++ [s!"query parameter `{nm}`: unknown serde_as adapter `{t}`"]
+      | some (s, optWrap) =>
+        if !p.isArray then core := core ++ [s!"query parameter `{nm}` is not an array but carries the adapter `{t}`"]
+        else if explodeOf p then core := core ++ [s!"query parameter `{nm}` is exploded but carries the delimiter adapter `{t}`"]
+        else if s != sepOf p.style then core := core ++ [s!"query parameter `{nm}`: separator adapter `{t}` does not fit style {reprStr p.style}"]
+        else if optWrap != gb f "optional" then extra := extra ++ [s!"query parameter `{nm}`: adapter `{t}` on a member of type {gs f "ty"}"]
+        else if gs f "inner" != String.ofList adapterItemType then
+          let text := s!"query parameter `{nm}`: the adapter `{t}` converts sequences of String, the member holds {gs f "ty"} (does not compile)"
+          if p.item != .string then cls := cls ++ [("KnownSeparatorItemType", text)] else extra := extra ++ [text]
+    | none =>
+      if p.isArray && gb f "array" then
+        if explodeOf p then
+          cls := cls ++ [("KnownExplodedQueryArray", s!"query parameter `{nm}`: array member {fld} without a delimiter adapter: serde_urlencoded rejects sequences, every call that supplies it fails")]
+        else core := core ++ [s!"query parameter `{nm}`: delimited array member {fld} without its separator adapter"]
+    -- the proved clause must agree with the clause-wise evaluation
+    let m : QMember := { field := fld.toList, key := key.toList, isArray := gb f "array", optional := gb f "optional", adapter }
+    let coreOk := core.isEmpty && !(cls.any fun k => k.1 == "KnownExplodedQueryArray")
+    if sa.isSome == adapter.isSome && coreOk != queryOk p m then
+      extra := extra ++ [s!"internal: clause-wise evaluation of query parameter `{nm}` disagrees with queryOk"]
+    bad := bad ++ core ++ extra
+    known := known ++ cls
+  return (bad, known)
+
+/-- header clause of the property on the extracted insertions -/
+def judgeHeaders (hps : List WParam) (hl : Json) (unread : List String) : List String × List (String × String) := Id.run do
+  let ins := match hl with | .arr a => a.toList | _ => []
+  let note := if unread.isEmpty then "" else " (" ++ "; ".intercalate unread ++ ")"
+  if hl == Json.str "other" then return (["the header map is not built by a readable TryFrom impl" ++ note], [])
+  if ins.length != hps.length then return ([s!"{ins.length} header insertions for {hps.length} header parameters" ++ note], [])
+  let mut bad : List String := []
+  let mut known : List (String × String) := []
+  for (p, e) in hps.zip ins do
+    let nm := String.ofList p.name
+    let fld := gs e "field"
+    let form := gs e "form"
+    let hform : HForm := match form with
+      | "str" => .str | "to_string" => .toString | "join:," => .joinComma | t => .other t.toList
+    let stringMember := gb e "string_member"
+    let mut core : List String := []
+    let mut cls : List (String × String) := []
+    match go e "wire" with
+    | .str w => if w.toList != lowerName p.name then core := core ++ [s!"header parameter `{nm}` is sent under the name `{w}` (constant {gs e "const"})"]
+    | _ => core := core ++ [s!"header parameter `{nm}`: {gs e "const"} is not an emitted header-name constant"]
+    if form.startsWith "other:" then core := core ++ [s!"unrecognised header value expression: {form.drop 6} (header `{nm}`)"]
+    else if form.startsWith "join:" && form != "join:," then core := core ++ [s!"header parameter `{nm}`: items joined with `{form.drop 5}`, style simple wants `,`"]
+    else if p.isArray && form != "join:," then core := core ++ [s!"header parameter `{nm}` is an array, its value expression has the form `{form}`"]
+    else if !p.isArray && form == "join:," then core := core ++ [s!"header parameter `{nm}` is not an array, its value expression joins items"]
+    else if !p.isArray && form == "str" && !stringMember then core := core ++ [s!"header parameter `{nm}`: the member {fld} is passed as it is but is not a String"]
+    match go e "optional" with
+    | .bool o =>
+      if o == p.required then core := core ++ [s!"header parameter `{nm}` (required = {p.required}): member {fld} is {if o then "" else "not "}an Option"]
+      if gb e "conditional" != o then
+        let text := s!"header parameter `{nm}`: the insertion is {if gb e "conditional" then "" else "not "}wrapped in `if let Some` but member {fld} is {if o then "" else "not "}an Option (does not compile)"
+        if p.required && p.hasDefault then cls := cls ++ [("KnownRequiredDefaultHeader", text)] else core := core ++ [text]
+      let wire := match go e "wire" with | .str w => w.toList | _ => []
+      let h : HInsert := { field := fld.toList, const := (gs e "const").toList, wire, form := hform, conditional := gb e "conditional", optional := o }
+      if (core.isEmpty && cls.isEmpty) != headerOk p h (stringMember && !p.isArray) then
+        core := core ++ [s!"internal: clause-wise evaluation of header parameter `{nm}` disagrees with headerOk"]
+    | _ => core := core ++ [s!"header parameter `{nm}`: member `{fld}` not found in the header struct"]
+    bad := bad ++ core
+    known := known ++ cls
+  return (bad, known)
 
 def run : Handler := fun req => do
   let inp ← field req "in"
@@ -38,8 +213,16 @@ def run : Handler := fun req => do
   let method ← chars (← field d "method")
   let path ← chars (← field d "path")
   let ps ← paramsOf (fieldD d "params" (Json.arr #[]))
+  let wps ← wparamsOf (fieldD d "params" (Json.arr #[]))
   let impl ← field req "impl"
   let cps := collectParams ps
+  let cws := collectW wps
+  let qps := cws.filter (·.loc == .query)
+  let hps := cws.filter (·.loc == .header)
+  let wire := fieldD impl "wire" Json.null
+  let consts := fieldD wire "consts" Json.null
+  let wops := ga wire "ops"
+  let unread := (ga wire "unreadable").map fun u => u.getStr?.toOption.getD ""
   let decl := pathDecl path ps
   let bodyJ := fieldD d "body" Json.null
   let firstCt : Option (List Char) := match bodyJ.getObjVal? "content" with
@@ -64,12 +247,17 @@ def run : Handler := fun req => do
     | .ok p => Json.mkObj [("http", str httpText),
         ("pushes", Json.arr (p.segments.map Oas3.Driver.Path.segJson).toArray),
         ("query", Json.bool (cps.any (·.loc == .query))), ("headers", Json.bool (cps.any (·.loc == .header))),
-        ("body", match firstCt with | some ct => str (bodyEnc ct) | none => Json.null), ("validates_first", Json.bool true)]
+        ("body", match firstCt with | some ct => str (bodyEnc ct) | none => Json.null), ("validates_first", Json.bool true),
+        ("query_layout", if dupFields .query then Json.str "field-clash" else Json.arr (qps.map fun q => qmemberJson (queryMember q)).toArray),
+        ("header_layout", if dupFields .header then Json.str "field-clash" else Json.arr (hps.map hinsertM).toArray)]
     | .error _ => Json.mkObj [("skipped", Json.bool true)]
   let model := match parsed with
     | .ok _ => if copies == 1 then model1 else Json.arr (List.replicate copies model1).toArray
     | .error _ => model1
-  let methods := match fieldD impl "methods" (Json.arr #[]) with | .arr a => a.toList | _ => []
+  let methods0 := match fieldD impl "methods" (Json.arr #[]) with | .arr a => a.toList | _ => []
+  -- every method with the wire facts of the method of the same name
+  let methods : List (Json × Json) := methods0.map fun m => (m, (wops.find? fun w => go w "name" == go m "name").getD Json.null)
+  let project := project consts (dupFields .query) (dupFields .header)
   let implProj := match methods with
     | [m] => project m
     | [] => if (impl.getObjVal? "panic").toOption.isSome then Json.mkObj [("panic", Json.bool true)] else Json.mkObj [("skipped", Json.bool true)]
@@ -111,14 +299,26 @@ def run : Handler := fun req => do
       let wantBody := match firstCt with | some ct => str (bodyEnc ct) | none => Json.null
       if fieldD p "body" Json.null != wantBody then return verdict false [] "body encoder differs from the declared media type's"
       if fieldD p "validates_first" Json.null != Json.bool true then return verdict false [] "request is not validated before the URL is built"
-      return verdict true []
+      -- query members and header insertions, parameter by parameter
+      if (cws.map WParam.toParam) != cps then return verdict false [] "internal: collectW disagrees with collectParams"
+      let (qbad, qknown) := judgeQuery qps (fieldD p "query_layout" Json.null) (ga (go m.2 "query") "fields")
+      let (hbad, hknown) := judgeHeaders hps (fieldD p "header_layout" Json.null) unread
+      let leftover := if (qbad ++ hbad).isEmpty && !unread.isEmpty then ["unreadable emitted code: " ++ "; ".intercalate unread] else []
+      match qbad ++ hbad ++ leftover with
+      | w :: _ => return verdict false [] w
+      | [] =>
+        match qknown ++ hknown with
+        | k :: _ => return verdict false (uniqS ((qknown ++ hknown).map (·.1))) k.2
+        | [] => return verdict true []
     | [] =>
       match parsed with
       | .error _ => return verdict true []     -- malformed template: operation reported as skipped
       | .ok _ => return verdict false [] "no client method emitted for a well-formed operation"
   let branch := (match parsed with | .ok p => (if p.segments.any (fun s => match s with | .mixed .. => true | _ => false) then "mixed" else "plain") | .error _ => "badpath") ++
     (if cps.any (·.loc == .query) then "+q" else "") ++ (if cps.any (·.loc == .header) then "+h" else "") ++ (if firstCt.isSome then "+b" else "") ++
-    (if ps.any (·.pathLevel) then "+pl" else "")
+    (if ps.any (·.pathLevel) then "+pl" else "") ++
+    (if qps.any (fun q => q.isArray && !explodeOf q) then "+qdelim" else "") ++ (if qps.any (fun q => q.isArray && explodeOf q) then "+qexpl" else "") ++
+    (if (qps ++ hps).any (fun q => fieldName q.name != q.name) then "+ren" else "") ++ (if hps.any (·.isArray) then "+harr" else "")
   pure (Json.mkObj [("model", model), ("match", matched), ("judge", judge), ("branch", branch), ("impl_proj", implProj)])
 
 def ops : List (String × Handler) := [("client.method", run)]
